@@ -397,6 +397,30 @@ func runC08(c *core.Ctx) {
 		}
 		bounds = append(bounds, fmt.Sprintf("every truncation and every single-byte deletion/substitution/insertion (24-byte set) of %d shipped programs", done))
 	}
+	if ok {
+		// long runs of white space / comments between the tokens of short (mostly erroneous) programs: error
+		// messages quote the source around the error position
+		progs := []string{"x = ) y", "a + ", "func f(1, ) { }", "( ) z", "x = [1, 2 } y", "if { } else", "a . . b", "func ( ) ) q", "{ 1 : } w", "x => => y", "a = = b", "f ( , ) c", "] x", "1 2 3", "\"s\" \"t\" )", "for { ) }"}
+		var gaps []string
+		for _, n := range []int{1, 60, 119, 120, 121, 122, 130, 255, 256, 1000, 5000} {
+			sp := strings.Repeat(" ", n)
+			gaps = append(gaps, sp, strings.Repeat("\n", n), sp+"\n", "\n"+sp, sp+"\n"+sp, strings.Repeat("\t", n)+"\n", "/*"+sp+"*/", "//"+sp+"\n", strings.Repeat("\r\n", n/2+1))
+		}
+		n := 0
+		for _, p := range progs {
+			toks := strings.Split(p, " ")
+			for pos := 0; pos <= len(toks); pos++ {
+				for _, g := range gaps {
+					in := strings.Join(toks[:pos], " ") + g + strings.Join(toks[pos:], " ")
+					if c.MineNoDedup("gap", in) {
+						c08Do(c, "gap", []byte(in))
+						n++
+					}
+				}
+			}
+		}
+		bounds = append(bounds, fmt.Sprintf("%d short erroneous programs x every token gap x %d white-space / comment runs of 1..5000 bytes", len(progs), len(gaps)))
+	}
 	c.P.Bound = strings.Join(bounds, "; ") + "; file and line mode"
 }
 
